@@ -52,14 +52,24 @@ func cmdFunc(args []string) int {
 	timeout := fs.Int("timeout", 20, "per-obligation timeout (s)")
 	keep := fs.Bool("keep", false, "keep SMT files")
 	verbose := fs.Bool("v", false, "verbose")
+	genProp := fs.String("gen", "", "property whose generated overlay (harnesses) to include")
 	fs.Parse(args)
 	t0 := time.Now()
-	cs, err := LoadContracts(repoDir(), filepath.Join(VerifDir, "contracts/schemas"), filepath.Join(VerifDir, "contracts/stdlib"), nil)
+	var ovl map[string][]byte
+	if *genProp != "" {
+		var gerr error
+		ovl, gerr = overlayFor(*genProp, repoDir())
+		if gerr != nil {
+			fmt.Fprintln(os.Stderr, "gen:", gerr)
+			return 2
+		}
+	}
+	cs, err := LoadContracts(repoDir(), filepath.Join(VerifDir, "contracts/schemas"), filepath.Join(VerifDir, "contracts/stdlib"), ovl)
 	if err != nil {
 		fmt.Fprintln(os.Stderr, "contracts:", err)
 		return 2
 	}
-	p, err := LoadProgram(repoDir(), strings.Fields(*pkgs), nil)
+	p, err := LoadProgram(repoDir(), strings.Fields(*pkgs), ovl)
 	if err != nil {
 		fmt.Fprintln(os.Stderr, "load:", err)
 		return 2
